@@ -225,6 +225,9 @@ func (g *WeightedDirectedGraph) RemoveLine(fid, tid, id int64) {
 		delete(g.to[tid], fid)
 	}
 
+	if g.lineIDs[fid][tid] == nil {
+		return
+	}
 	g.lineIDs[fid][tid].Release(id)
 }
 
